@@ -192,6 +192,10 @@ impl vstd::std_specs::cmp::PartialEqSpecImpl for Cursor {
         Fn('is_simple_or_whole', props=P4, ret='r',
            ensures=[('iff', 'r <==> ((self.begin is BeginAligned && self.end is BeginAligned) || (self.begin == Cursor::BeginAligned(0) && self.end == Cursor::EndAligned(0)))')]),
     ])
+    # R-inherent: Default::default for Offset emitted as an inherent method; the default offset selects the whole target
+    u.impl('src/selector.rs', 'impl Default for Offset', [
+        Fn('default', emit_name='default_offset', props=P4, ret='r', ensures=[('whole', 'r.begin == Cursor::BeginAligned(0) && r.end == Cursor::EndAligned(0)')]),
+    ], verus_header='impl Offset')
     u.impl('src/selector.rs', 'impl From<&Offset> for OffsetMode', [
         Fn('from', props=P4, ret='r', ensures=[('mode', 'r == mode_of(*offset)')]),
     ], verus_header='impl OffsetMode')
